@@ -618,6 +618,9 @@ func run(c *engine.Ctx) {
 		engine.RunRacePass(c)
 	}
 
+	// rule set documents with one list written as something else
+	runDocuments(c)
+
 	maxLen := 3
 	if !c.Quick() {
 		maxLen = 4
@@ -711,6 +714,15 @@ func replay(c *engine.Ctx, raw json.RawMessage) {
 
 	if json.Unmarshal(raw, &rp) == nil && rp.RacePass {
 		engine.RunRacePass(c)
+
+		return
+	}
+
+	if err := json.Unmarshal(raw, &probe); err == nil && probe.Part == "documents" {
+		var dc DocCase
+
+		_ = json.Unmarshal(raw, &dc)
+		judgeDoc(c, &dc)
 
 		return
 	}
